@@ -478,7 +478,7 @@ impl World {
         let mk = self.next_kp();
         let m = mk.pubkey();
         let p = self.chain.payer.pubkey();
-        let rent = self.chain.ctx.banks_client.get_rent().await.unwrap();
+        let rent = self.chain.rent().await;
         let ixs = match kind {
             TokKind::Classic => vec![
                 system_instruction::create_account(&p, &m, rent.minimum_balance(82), 82, &spl_token::ID),
@@ -514,7 +514,7 @@ impl World {
         let tk = self.next_kp();
         let ta = tk.pubkey();
         let p = self.chain.payer.pubkey();
-        let rent = self.chain.ctx.banks_client.get_rent().await.unwrap();
+        let rent = self.chain.rent().await;
         let (mk, kind) = (self.mints[mint].key, self.mints[mint].kind);
         let mut ixs = match kind {
             TokKind::Classic => vec![
